@@ -199,6 +199,7 @@ fn counting_case(ctx: &Ctx, rep: &mut Report, case: u64, g: &mut Sm64) {
     }
     let ord = order.lock().unwrap().clone();
     rep.distinct(("completion-order", ord.clone()));
+    rep.distinct_in("completion orders of the chain workers", (n_chains, ord.clone()));
     rep.count(&format!("chains[{n_chains}]"));
     rep.count(&format!("profile[{profile}]"));
     rep.held();
